@@ -132,6 +132,10 @@ def run_env_prop(prop, tier, seed, only):
                 violations.append(v)
         else:
             machinery.append(f"recorder failed for {ad.name}/{cfg['id']}: {meta.get('error')}\n{meta.get('tb', '')}")
+    # per-trace summaries (reading the trace, hashing the distinct cases, collecting the rejected events) in processes
+    import concurrent.futures as cf
+
+    sjobs = []
     for ad, cfg, path, meta in out["traces"]:
         res = out["results"][path]
         n_events += meta["events"]
@@ -142,41 +146,24 @@ def run_env_prop(prop, tier, seed, only):
             machinery.append(f"{ad.name}/{cfg['id']}: {res.machinery_error}\n{res.output_tail[-1500:]}")
             continue
         n_lines_tlc += meta["lines"] if res.accepted else 0
-        lines = None
         if res.rejects or res.eval_errors or res.applicable:
-            lines = read_trace(path)
-        n_app += len(res.applicable)
-        pe["applicable"] += len(res.applicable)
-        for ln in res.applicable:
-            e = lines[ln - 1]
-            par = lines[e["par"] - 1]["s"] if e.get("par") else None
-            h = hashlib.sha1(dumps([ad.name, cfg["id"], par, e["a"], e["k"], e["s"] if par is None else 0]).encode()).digest()[:10]
-            distinct.add(h)
-        if res.applicable and len(samples) < 6:
-            e = lines[res.applicable[len(res.applicable) // 2] - 1]
-            samples.append({"env": ad.name, "cfg": cfg["id"], "event": _shrink(e)})
-        for ln, clauses in res.rejects:
-            for c in clauses:
-                pe["rejects"] += 1
-                e = lines[ln - 1]
-                v = {"property": prop, "env": ad.name, "cfgid": cfg["id"], "clause": c, "line": ln, "event": e,
-                     "parent": lines[e["par"] - 1] if e.get("par") else None, "cfg": lines[0]["cfg"],
-                     "seed": seed, "tier": tier, "trace_file": path}
+            sjobs.append((ad.name, cfg["id"], path, res.applicable, res.rejects, res.eval_errors, prop, seed, tier))
+    with cf.ProcessPoolExecutor(max(1, common.NCPU)) as ex:
+        for name, cfgid, n_applicable, hashes, sample, vs in ex.map(_summarize, sjobs, chunksize=4):
+            pe = per_env[name]
+            n_app += n_applicable
+            pe["applicable"] += n_applicable
+            distinct |= hashes
+            if sample is not None and len(samples) < 6:
+                samples.append(sample)
+            for v in vs:
+                if not v["clause"].endswith(".spec_eval_error"):
+                    pe["rejects"] += 1
                 f = match_finding(findings, v)
                 if f:
                     known_hits.setdefault(f["id"], f)
                 else:
                     violations.append(v)
-        for ln, msg in res.eval_errors:
-            e = lines[ln - 1] if lines and ln - 1 < len(lines) else None
-            v = {"property": prop, "env": ad.name, "cfgid": cfg["id"], "clause": f"{prop}.spec_eval_error",
-                 "line": ln, "event": e, "message": msg, "seed": seed, "tier": tier, "trace_file": path,
-                 "cfg": lines[0]["cfg"] if lines else None}
-            f = match_finding(findings, v)
-            if f:
-                known_hits.setdefault(f["id"], f)
-            else:
-                violations.append(v)
     states = trans = 0
     mc_list = []
     for mod, c, r in out["mcs"]:
@@ -201,6 +188,35 @@ def run_env_prop(prop, tier, seed, only):
         "checker_cmd": f"./check {prop} --tier {tier}", "exhaustive": False},
         ["implementation traces cover the sampled keys/policies/configurations listed in per_env; the MC runs are exhaustive "
          "for their small constants only", "float quantities are compared in 16-bit fixed point"])
+
+
+def _summarize(job):
+    """One trace: number of applicable lines, digests of the distinct (pre-state, action) cases, one sample, violations."""
+    from harness.record import read_trace
+
+    name, cfgid, path, applicable, rejects, eval_errors, prop, seed, tier = job
+    lines = read_trace(path)
+    hashes = set()
+    for ln in applicable:
+        e = lines[ln - 1]
+        par = lines[e["par"] - 1]["s"] if e.get("par") else None
+        hashes.add(hashlib.sha1(dumps([name, cfgid, par, e["a"], e["k"], e["s"] if par is None else 0]).encode()).digest()[:10])
+    sample = None
+    if applicable:
+        e = lines[applicable[len(applicable) // 2] - 1]
+        sample = {"env": name, "cfg": cfgid, "event": _shrink(e)}
+    vs = []
+    for ln, clauses in rejects:
+        for c in clauses:
+            e = lines[ln - 1]
+            vs.append({"property": prop, "env": name, "cfgid": cfgid, "clause": c, "line": ln, "event": e,
+                       "parent": lines[e["par"] - 1] if e.get("par") else None, "cfg": lines[0]["cfg"],
+                       "seed": seed, "tier": tier, "trace_file": path})
+    for ln, msg in eval_errors:
+        e = lines[ln - 1] if ln - 1 < len(lines) else None
+        vs.append({"property": prop, "env": name, "cfgid": cfgid, "clause": f"{prop}.spec_eval_error", "line": ln, "event": e,
+                   "message": msg, "seed": seed, "tier": tier, "trace_file": path, "cfg": lines[0]["cfg"] if lines else None})
+    return name, cfgid, len(applicable), hashes, sample, vs
 
 
 def _shrink(e):
